@@ -11,7 +11,14 @@ import Proofs.GoTieWitnessA
 namespace AgeModel
 namespace Tie.C03
 
-theorem mac_check_precedes_reader : Extracted.macCheckPrecedesReader = true := by decide
+/-- the extractor's own verdict (a constant it writes), AND the same fact recomputed here from the event table it
+    emits: the MAC comparison and the reader's creation both occur, once each, the comparison on an earlier source line.
+    (The semantic statement is `code_decrypt_mac_gate` below.) -/
+theorem mac_check_precedes_reader :
+    Extracted.macCheckPrecedesReader = true ∧
+    (Extracted.decryptOrder.map (·.2)).Pairwise (· < ·) ∧
+    (Extracted.decryptOrder.filter (·.1 == "hmac.Equal")).length = 1 ∧
+    (Extracted.decryptOrder.filter (·.1 == "stream.NewReader")).length = 1 := by decide
 
 theorem decrypt_order : Extracted.decryptOrder.map (·.1) = ["hmac.Equal", "stream.NewReader"] := by decide
 
@@ -35,7 +42,9 @@ theorem decrypt_tie (P : Prims) {ι : Type} (E : GoTie.DecryptEnv P ι) (file : 
     ∃ res, Extracted.age_Decrypt E.D E.U GoTie.errorsIsEq E.mac E.newReader E.key file ids = .ok res ∧
       match (decryptInit P (ids.map E.idOf) file).1 with
       | .ok (k, payload) => res = (k ++ payload, none)
-      | .error (.fatal _) => res.2 ≠ none ∧ res.2 ≠ Extracted.age_ErrIncorrectIdentity
+      | .error (.fatal idx) => ∃ hdr payload j r, Format.parse file = .ok (hdr, payload) ∧ ids[idx]? = some j ∧
+          E.U j (hdr.stanzas.map GoTie.toGoStanza) = .ok r ∧ r.2 ≠ none ∧ r.2 ≠ Extracted.age_ErrIncorrectIdentity ∧
+          res = ([], r.2)
       | .error e => res = ([], GoTie.decryptErr e none) :=
   GoTie.decrypt_tie P E file ids
 
@@ -74,6 +83,8 @@ theorem code_decrypt_mac_gate (P : Prims) {ι : Type} (E : GoTie.DecryptEnv P ι
       exact ⟨hdr, rest, fk, hp, hi, hmac, by rw [hres, hk, hpl]⟩
     | error e =>
       cases e <;> simp [GoTie.decryptErr] at hres
+      obtain ⟨_, _, _, r, _, _, _, hne, _, _, he⟩ := hres
+      exact absurd he.symm hne
 
 /-- **the assumption structures this file's theorems take are satisfiable** (for a lawful toy primitive suite
     with the 16-byte tag, where they mention primitives): none of the theorems above is vacuous. The instances are in
